@@ -6,7 +6,7 @@ FLAGS = ["cc", "cs", "sc", "ss", "mc", "ms"]
 
 
 def main(argv):
-    cfgs = ["MC_sched_m_%s.cfg" % f for f in FLAGS] + ["MC_sched_mq_%s.cfg" % f for f in FLAGS] + ["MC_sched_ma_%s.cfg" % f for f in ("cc", "ss", "mc")]
+    cfgs = ["MC_sched_m_%s.cfg" % f for f in FLAGS] + ["MC_sched_mq_%s.cfg" % f for f in FLAGS] + ["MC_sched_ma_%s.cfg" % f for f in ("cc", "ss", "mc")] + ["MC_sched_mcs_cc.cfg", "MC_sched_mcs_ss.cfg"]
     if common.tier() == "thorough":
         cfgs += ["MC_sched_mz_%s.cfg" % f for f in FLAGS]
     return c08.main(argv, pid="C09", cfgs=cfgs, serial=True)
